@@ -103,8 +103,6 @@ def check(report: Report, repo: Repo) -> None:
             continue
         for tag in tags:
             for ndim in (1, 2, 3, 4):
-                if rname == "sgd-output" and tag in ("bias", "norm") and ndim != 1:
-                    continue
                 for depth in (None, Dp):
                     p = mkparam(tag, ndim, depth)
                     it.events = []
@@ -158,16 +156,21 @@ def check(report: Report, repo: Repo) -> None:
     ok = isinstance(res, list) and len(res) == 1 and isinstance(res[0], dict) and TM.expr_equal(res[0].get("lr"), lr) is True and not raised
     report.add("R2-errors", f"{cons}::untagged-allowed", ok, "allowed untagged parameter keeps the group lr unscaled", fmt(res), f"[{{lr: {lr}}}]")
     # application, float lr: bare iterable and groups with/without own lr
+    from ..values import OneShot
+
     scen = {
-        "bare": ([p1, p2, p3], [lr, lr, lr]),
-        "groups": ([{"params": [p1, p2], "lr": glr}, {"params": [p3]}], [glr, glr, lr]),
+        "bare": (lambda: [p1, p2, p3], [lr, lr, lr]),
+        "groups": (lambda: [{"params": [p1, p2], "lr": glr}, {"params": [p3]}], [glr, glr, lr]),
+        # one-shot iterables (model.parameters() is a generator): every parameter must still be seen once
+        "bare generator": (lambda: OneShot([p1, p2, p3]), [lr, lr, lr]),
+        "groups holding generators": (lambda: [{"params": OneShot([p1, p2]), "lr": glr}, {"params": OneShot([p3])}], [glr, glr, lr]),
     }
-    for sname, (params, lrs) in scen.items():
+    for sname, (mk_params, lrs) in scen.items():
         for rname in ("adam", "sgd-output"):
             f = rules.get(rname)
             if f is None:
                 continue
-            res, raised = run(params, lr_scale_func=f, lr=lr, weight_decay=wd)
+            res, raised = run(mk_params(), lr_scale_func=f, lr=lr, weight_decay=wd)
             if not isinstance(res, list) or len(res) != 3:
                 report.add("R3-application", f"{cons}::lr", None if isinstance(res, tuple) else False, f"{sname}/{rname}: expected 3 groups, got {fmt(res)}")
                 continue
